@@ -1024,8 +1024,12 @@ func check(t *rapid.T, backend string) {
 	if m, _ := gaveUp.Load().(string); m != "" {
 		t.Fatalf("INCONCLUSIVE[C31 %s: an earlier case did not make progress: %s]", backend, m)
 	}
+	t0 := time.Now()
 	b, v := runCase(c)
 	canon, _ := json.Marshal(c)
+	if os.Getenv("C31_DEBUG") != "" {
+		fmt.Fprintf(os.Stderr, "C31_DEBUG %v %s -> %+v\n", time.Since(t0).Round(time.Millisecond), canon, v)
+	}
 	if v != nil {
 		hist := ""
 		if b != nil {
